@@ -94,31 +94,31 @@ Print Assumptions C07_esd_suffix.
    always_cond: every row of the aniso loop meets an atom whose anisotropy flag is on once settled (it is, unless the
                 site loop declared that atom Uiso).
    Then any permutation of the columns of the site loop and of the aniso loop gives the same result. *)
-Theorem C07_column_order : forall (eps : R) (lat : latdata R) (recbase : gmat R) (Dz : Z) (grid : R -> Z),
+Theorem C07_column_order : forall (eps : R) (lat : latdata R) (recbase : gmat R) (Dz : Z) (grid : R -> Z) (dcv : dec -> R),
   (0 < l_epsilon lat)%R ->
-  (forall c, cartesian (Env (RC eps) lat recbase Dz grid) (fractional (Env (RC eps) lat recbase Dz grid) c) = c) ->
+  (forall c, cartesian (Env (RC eps) lat recbase Dz grid dcv) (fractional (Env (RC eps) lat recbase Dz grid dcv) c) = c) ->
   forall find Tb cell n cols cols' m acols acols' b,
   Permutation cols cols' -> NoDup (map (tc_name (T:=R)) cols) -> (forall i, (i < n)%nat -> site_ok (row_of cols i)) ->
   Permutation acols acols' -> NoDup (map (tc_name (T:=R)) acols) -> (forall i, (i < m)%nat -> aniso_ok (row_of acols i)) ->
-  (forall st0 lc, read_site_loop (Env (RC eps) lat recbase Dz grid) (TLoop n cols) = Ok st0 ->
-                  label_col "_atom_site_aniso_label" acols = Some lc -> always_cond eps lat recbase Dz grid m acols lc st0) ->
-  read_typed (Env (RC eps) lat recbase Dz grid) find Tb cell (TLoop n cols') (Some (TLoop m acols')) b =
-  read_typed (Env (RC eps) lat recbase Dz grid) find Tb cell (TLoop n cols) (Some (TLoop m acols)) b.
+  (forall st0 lc, read_site_loop (Env (RC eps) lat recbase Dz grid dcv) (TLoop n cols) = Ok st0 ->
+                  label_col "_atom_site_aniso_label" acols = Some lc -> always_cond eps lat recbase Dz grid dcv m acols lc st0) ->
+  read_typed (Env (RC eps) lat recbase Dz grid dcv) find Tb cell (TLoop n cols') (Some (TLoop m acols')) b =
+  read_typed (Env (RC eps) lat recbase Dz grid dcv) find Tb cell (TLoop n cols) (Some (TLoop m acols)) b.
 Proof. exact column_order. Qed.
 Print Assumptions C07_column_order.
 
 (* one row, any starting atom for the aniso loop *)
-Theorem C07_site_row_order : forall (eps : R) (lat : latdata R) (recbase : gmat R) (Dz : Z) (grid : R -> Z),
+Theorem C07_site_row_order : forall (eps : R) (lat : latdata R) (recbase : gmat R) (Dz : Z) (grid : R -> Z) (dcv : dec -> R),
   (0 < l_epsilon lat)%R ->
-  (forall c, cartesian (Env (RC eps) lat recbase Dz grid) (fractional (Env (RC eps) lat recbase Dz grid) c) = c) ->
+  (forall c, cartesian (Env (RC eps) lat recbase Dz grid dcv) (fractional (Env (RC eps) lat recbase Dz grid dcv) c) = c) ->
   forall r r', Permutation r r' -> site_ok r ->
-  run_row (Env (RC eps) lat recbase Dz grid) (init_atom (Env (RC eps) lat recbase Dz grid)) r' =
-  run_row (Env (RC eps) lat recbase Dz grid) (init_atom (Env (RC eps) lat recbase Dz grid)) r.
+  run_row (Env (RC eps) lat recbase Dz grid dcv) (init_atom (Env (RC eps) lat recbase Dz grid dcv)) r' =
+  run_row (Env (RC eps) lat recbase Dz grid dcv) (init_atom (Env (RC eps) lat recbase Dz grid dcv)) r.
 Proof. exact site_row_order. Qed.
-Theorem C07_aniso_row_order : forall (eps : R) (lat : latdata R) (recbase : gmat R) (Dz : Z) (grid : R -> Z),
-  (forall c, cartesian (Env (RC eps) lat recbase Dz grid) (fractional (Env (RC eps) lat recbase Dz grid) c) = c) ->
+Theorem C07_aniso_row_order : forall (eps : R) (lat : latdata R) (recbase : gmat R) (Dz : Z) (grid : R -> Z) (dcv : dec -> R),
+  (forall c, cartesian (Env (RC eps) lat recbase Dz grid dcv) (fractional (Env (RC eps) lat recbase Dz grid dcv) c) = c) ->
   forall a r r', Permutation r r' -> aniso_ok r -> st_aniso (a_adp a) = true ->
-  run_row (Env (RC eps) lat recbase Dz grid) a r' = run_row (Env (RC eps) lat recbase Dz grid) a r.
+  run_row (Env (RC eps) lat recbase Dz grid dcv) a r' = run_row (Env (RC eps) lat recbase Dz grid dcv) a r.
 Proof. exact aniso_row_order. Qed.
 
 (* outside these conditions the order of the columns DOES matter (exact-rational runs of the model; the finder replays
@@ -132,11 +132,11 @@ Theorem C07_column_order_refuted_outside_conditions :
 Proof. exact (conj merged_loop_order_matters fract_cartn_order_matters). Qed.
 
 (* ---- fractional versus Cartesian coordinates (one row) ------------------------------------------------------------ *)
-Theorem C07_fract_vs_cartn : forall (eps : R) (lat : latdata R) (recbase : gmat R) (Dz : Z) (grid : R -> Z),
-  (forall c, cartesian (Env (RC eps) lat recbase Dz grid) (fractional (Env (RC eps) lat recbase Dz grid) c) = c) ->
-  forall p x, fractional (Env (RC eps) lat recbase Dz grid) (cartesian (Env (RC eps) lat recbase Dz grid) p) = p ->
-  fold_left (xyz_step eps lat recbase Dz grid) (cartn_cols (cartesian (Env (RC eps) lat recbase Dz grid) p)) x = p /\
-  fold_left (xyz_step eps lat recbase Dz grid) (fract_cols p) x = p.
+Theorem C07_fract_vs_cartn : forall (eps : R) (lat : latdata R) (recbase : gmat R) (Dz : Z) (grid : R -> Z) (dcv : dec -> R),
+  (forall c, cartesian (Env (RC eps) lat recbase Dz grid dcv) (fractional (Env (RC eps) lat recbase Dz grid dcv) c) = c) ->
+  forall p x, fractional (Env (RC eps) lat recbase Dz grid dcv) (cartesian (Env (RC eps) lat recbase Dz grid dcv) p) = p ->
+  fold_left (xyz_step eps lat recbase Dz grid dcv) (cartn_cols (cartesian (Env (RC eps) lat recbase Dz grid dcv) p)) x = p /\
+  fold_left (xyz_step eps lat recbase Dz grid dcv) (fract_cols p) x = p.
 Proof. exact fract_vs_cartn. Qed.
 Print Assumptions C07_fract_vs_cartn.
 
